@@ -151,7 +151,8 @@ def numText (s : Str) : Bool := s.all numChar
 /-- the header record kinds whose columns the parser cuts exactly as RINEX 3.04 defines them (for the version
 record: the version field F9.2 plus the 11 blank columns after it), with the handler the parser registers
 for their label; `GSLOTP` / `GBIASP` are `GLONASS SLOT / FRQ #` (first and continuation lines) and
-`GLONASS COD/PHS/BIS` with each slot/frequency resp. type/bias pair written as one cell -/
+`GLONASS COD/PHS/BIS` with each slot/frequency resp. type/bias pair written as one cell, `PSHIFTP` is `SYS / PHASE SHIFT` (first
+and continuation lines) with the satellite list written as one cell (`G01 G02 G03`), as the parser cuts it -/
 def plainKinds : List (String × String) :=
   [("VER3", "_parse_string"), ("PGM", "_parse_string"), ("COM", "_parse_comment"), ("MNUM", "_parse_string"),
    ("MTYPE", "_parse_string"), ("OBSAG", "_parse_string"), ("REC", "_parse_string"), ("ANT", "_parse_string"),
@@ -159,7 +160,7 @@ def plainKinds : List (String × String) :=
    ("INTERVAL", "_parse_float"), ("TFIRST", "_parse_time_of_first_obs"), ("TLAST", "_parse_time_of_last_obs"),
    ("RCVCLK", "_parse_string"), ("DCBS", "_parse_sys_dcbs_applied"), ("PCVS", "_parse_sys_pcvs_applied"),
    ("LEAP3", "_parse_leap_seconds"), ("NSAT", "_parse_integer"),
-   ("GSLOTP", "_parse_glonass_slot"), ("GBIASP", "_parse_glonass_code_phase_bias")]
+   ("GSLOTP", "_parse_glonass_slot"), ("GBIASP", "_parse_glonass_code_phase_bias"), ("PSHIFTP", "_parse_phase_shift")]
 
 def handlerOf (kind : String) : String :=
   if kind = "MNAME" then "_parse_string"
